@@ -80,6 +80,8 @@ pub enum When {
 #[derive(Clone, PartialEq, Eq, Debug, Hash)]
 pub enum Op {
     New,
+    /// create through another constructor: 1 From<T>, 2 From<Box<T>>, 3 new_uninit + assume_init, 4 pin
+    NewVia(u8),
     Clone(HRef),
     Drop(usize),
     Store(ObjId, usize),
@@ -93,6 +95,8 @@ pub enum Op {
     StoreWeak(ObjId, usize),
     TakeWeak(ObjId, usize),
     WeakNew,
+    /// Weak::into_raw + Weak::from_raw round trip (as_ptr must agree)
+    WeakRawRound(usize),
     // consuming APIs (C12)
     TryUnwrap(usize),
     MakeMut(usize),
@@ -160,6 +164,7 @@ impl fmt::Display for Op {
     fn fmt(&self, f: &mut fmt::Formatter<'_>) -> fmt::Result {
         match self {
             Op::New => write!(f, "new"),
+            Op::NewVia(k) => write!(f, "newvia:{}", k),
             Op::Clone(h) => write!(f, "clone:{}", h),
             Op::Drop(s) => write!(f, "drop:{}", fmt_slot(*s)),
             Op::Store(o, s) => write!(f, "store:{}:{}", o, fmt_slot(*s)),
@@ -173,6 +178,7 @@ impl fmt::Display for Op {
             Op::StoreWeak(o, s) => write!(f, "wstore:{}:{}", o, fmt_slot(*s)),
             Op::TakeWeak(o, k) => write!(f, "wtake:{}:{}", o, k),
             Op::WeakNew => write!(f, "wnew"),
+            Op::WeakRawRound(s) => write!(f, "wrawround:{}", fmt_slot(*s)),
             Op::TryUnwrap(s) => write!(f, "tryunwrap:{}", fmt_slot(*s)),
             Op::MakeMut(s) => write!(f, "makemut:{}", fmt_slot(*s)),
             Op::MakeMutIn(o, k) => write!(f, "makemutin:{}:{}", o, k),
@@ -240,6 +246,7 @@ pub fn parse_op(s: &str) -> Option<Op> {
     let w = |i: usize| -> Option<WRef> { parse_wref(parts.get(i)?) };
     Some(match parts[0] {
         "new" => Op::New,
+        "newvia" => Op::NewVia(u(1)? as u8),
         "clone" => Op::Clone(h(1)?),
         "drop" => Op::Drop(u(1)?),
         "store" => Op::Store(o(1)?, u(2)?),
@@ -253,6 +260,7 @@ pub fn parse_op(s: &str) -> Option<Op> {
         "wstore" => Op::StoreWeak(o(1)?, u(2)?),
         "wtake" => Op::TakeWeak(o(1)?, u(2)?),
         "wnew" => Op::WeakNew,
+        "wrawround" => Op::WeakRawRound(u(1)?),
         "tryunwrap" => Op::TryUnwrap(u(1)?),
         "makemut" => Op::MakeMut(u(1)?),
         "makemutin" => Op::MakeMutIn(o(1)?, u(2)?),
